@@ -766,17 +766,20 @@ fn main() {
         });
     }
     // a large stream with ONE malformed record (early, in the middle, last), written at once, in
-    // halves, in 64 KiB pieces and with a cut just after the faulty line: the write that completes
+    // halves, in 64 KiB pieces and with cuts just before / at the end of the faulty record: the write that completes
     // the record fails, and exactly the records in front of it have been collected
     {
         let n_entries = 1300usize;
         let ks: Vec<usize> = vec![0, 1, 95, 96, 97, 650, 1298, 1299];
-        run.bound(format!("a large malformed stream: {} entries (~330 KB), the record at index {:?} lacking an '=', written in one call, in halves, in 64 KiB and 100 000-byte pieces", n_entries, ks));
+        run.bound(format!("a large malformed stream: {} entries (~330 KB), the record at index {:?} lacking an '=', written in one call, in halves, in 64 KiB and 100 000-byte pieces, and with cuts just before / at the end of the faulty record", n_entries, ks));
         par_items(&run, "C09 large malformed", &ks, |_, k, t| {
             let kind = format!("S6-bad:{}", k);
             let spec = described_spec(&kind, n_entries);
             let n = spec.bytes.len();
-            for cuts in [vec![], vec![n / 2], (1..n).filter(|q| q % 65_536 == 0).collect::<Vec<usize>>(), (1..n).filter(|q| q % 100_000 == 0).collect::<Vec<usize>>()] {
+            let Some(bad_end) = spec.bad_end else {
+                mc_core::run::machinery_fault("the large malformed stream is not malformed (the stream generator changed)");
+            };
+            for cuts in [vec![], vec![n / 2], (1..n).filter(|q| q % 65_536 == 0).collect::<Vec<usize>>(), (1..n).filter(|q| q % 100_000 == 0).collect::<Vec<usize>>(), vec![bad_end - 1], vec![bad_end], vec![bad_end.saturating_sub(200).max(1), bad_end - 1]] {
                 t.evals += 1;
                 t.validated += 1;
                 t.states += 1;
